@@ -29,11 +29,15 @@ pub struct SearchOut {
 }
 
 pub fn run_search(b: &Board, hist: &[Board], k: u64) -> SearchOut {
+    run_search_cfg(b, hist, k, false)
+}
+
+pub fn run_search_cfg(b: &Board, hist: &[Board], k: u64, positional: bool) -> SearchOut {
     let mut tf = ThreeFold::new();
     for h in hist {
         tf.add(*h);
     }
-    let mut e = Engine::default();
+    let mut e = Engine { positional, ..Engine::default() };
     e.max_depth = u16::MAX; // sentinel: overwritten by the first completed pass
     let t = CountingTimeout { k, polls: Cell::new(0) };
     let (mv, score) = e.search(b, &tf, &t);
@@ -195,14 +199,20 @@ pub fn retro_mates(rng: &mut Rng, n: usize, out: &mut Vec<Tagged>) {
 }
 
 fn search_cases(out: &mut Out, t: &Tagged, hist: &[Board], kvals: &[u64]) {
+    search_cases_cfg(out, t, hist, kvals, false)
+}
+
+/// `positional`: the search runs as `Engine { positional: true, .. }` and the model is asked with `pos=1`
+fn search_cases_cfg(out: &mut Out, t: &Tagged, hist: &[Board], kvals: &[u64], positional: bool) {
+    let cfg = if positional { " pos=1" } else { "" };
     let b = t.board;
     let v = view(&b);
     let p = pos64(&v);
     let h = if hist.is_empty() { "-".to_string() } else { hist.iter().map(|x| pos64(&view(x))).collect::<Vec<_>>().join(",") };
     for &k in kvals {
         let mut res: Option<(String, String)> = None;
-        out.case(t.tag, true, format!("search {p} hist={h} k={k} prev=65535"), || {
-            let mut o = run_search(&b, hist, k);
+        out.case(t.tag, true, format!("search {p} hist={h} k={k} prev=65535{cfg}"), || {
+            let mut o = run_search_cfg(&b, hist, k, positional);
             // callers outside the crate (the plugin, the referee) see the result through the stable-interface value
             // `EvaluatedMove`: encode and decode it the way they do before judging it
             let em = chess_api::EvaluatedMove::new(o.mv, o.score);
@@ -220,7 +230,7 @@ fn search_cases(out: &mut Out, t: &Tagged, hist: &[Board], kvals: &[u64]) {
         // the specification's verdict on what the search returned (legal move / none / mate in one)
         if let Some((r, _)) = res {
             // the notion "first pass finished" the theorems are stated with, evaluated by the model
-            out.record("first-pass", true, format!("searchfp {p} hist={h} k={k}"), r.rsplit(',').next().unwrap().to_string());
+            out.record("first-pass", true, format!("searchfp {p} hist={h} k={k}{cfg}"), r.rsplit(',').next().unwrap().to_string());
             out.record("oracle", true, format!("searchchk {p} k={k} res={r}"), "ok".into());
         } else {
             out.record("oracle", true, format!("searchchk {p} k={k} res=none,Min,false"), "search-panicked".into());
@@ -759,8 +769,10 @@ pub fn load_ep_only_reply() -> Vec<String> {
         .unwrap_or_default()
 }
 
-/// `Engine { positional: true, .. }` is not the shipped configuration and is not modelled, but `positional` is a public
-/// field: a search with it must neither panic nor return an illegal move either
+/// `Engine { positional: true, .. }` is not the shipped configuration, but `positional` is a public field and C11 / C12
+/// speak of "the search": the model takes the flag (`Engine.search pos`), the piece-square maps are read from the source
+/// by the translator, and the result of the search (move, score, depth, evaluation and poll counts) is compared exactly;
+/// the specification judges the returned move as for the shipped configuration.
 pub fn positional_no_trap(out: &mut Out, rng: &mut Rng, thorough: bool) {
     let mut ps: Vec<Tagged> = positions(rng, if thorough { 600 } else { 60 });
     // kings on every rank and file (the positional tables are indexed by the king squares, one of them rank-flipped)
@@ -776,13 +788,45 @@ pub fn positional_no_trap(out: &mut Out, rng: &mut Rng, thorough: bool) {
         if sq[r] == b'.' {
             sq[r] = if k % 2 == 0 { b'R' } else { b'r' };
         }
+        // every other one with level material (the `Ordering::Equal` arm decides `is_endgame` from both limits)
+        let r2 = (k * 11 + 5) % 64;
+        if k % 3 == 0 && sq[r2] == b'.' {
+            sq[r2] = if k % 2 == 0 { b'r' } else { b'R' };
+        }
         for white in [true, false] {
             if let Some(b) = crate::common::guard(|| chess_movegen::fen::parse_fen(fen_of(&sq, white, 0, None, 0, 1).as_bytes()).ok()).flatten() {
                 ps.push(Tagged { board: b, tag: "king-on-every-square" });
             }
         }
     }
-    for t in ps.iter() {
+    // every kind of man on every square once (each piece-square map, both colours, is read at every index)
+    for (i, pc) in b"QqNnRrBbPp".iter().enumerate() {
+        for s in 0..64usize {
+            if (*pc == b'P' || *pc == b'p') && (s / 8 == 0 || s / 8 == 7) {
+                continue;
+            }
+            let mut sq = [b'.'; 64];
+            let wk = [4usize, 60, 32, 39][(s + i) % 4];
+            let bk = [63usize, 0, 7, 56][(s / 3 + i) % 4];
+            if s == wk || s == bk || ((wk as i32 % 8 - bk as i32 % 8).abs() <= 1 && (wk as i32 / 8 - bk as i32 / 8).abs() <= 1) {
+                continue;
+            }
+            sq[wk] = b'K';
+            sq[bk] = b'k';
+            sq[s] = *pc;
+            // a second man of the other colour so that both sides have a map entry (and the mirror image of a rook
+            // may fall on a black man: the source intersects Black's men with the flipped rooks of both colours)
+            let s2 = (s ^ 56) as usize;
+            if sq[s2] == b'.' && !(s2 / 8 == 0 || s2 / 8 == 7) {
+                sq[s2] = if pc.is_ascii_uppercase() { b'p' } else { b'P' };
+            }
+            let white = (s + i) % 2 == 0;
+            if let Some(b) = crate::common::guard(|| chess_movegen::fen::parse_fen(fen_of(&sq, white, 0, None, 0, 1).as_bytes()).ok()).flatten() {
+                ps.push(Tagged { board: b, tag: "man-on-every-square" });
+            }
+        }
+    }
+    for (i, t) in ps.iter().enumerate() {
         let b = t.board;
         let p = pos64(&view(&b));
         for k in [0u64, 60, 600] {
@@ -799,6 +843,16 @@ pub fn positional_no_trap(out: &mut Out, rng: &mut Rng, thorough: bool) {
                 out.record("positional-move-legal", true, format!("pos islegal {p} {}", mv_str(m)), "true".into());
             }
         }
+        // exact comparison with the model under `pos=1`
+        let tagged = Tagged { board: b, tag: if t.tag == "king-on-every-square" || t.tag == "man-on-every-square" { t.tag } else { "positional" } };
+        let mut kvals: Vec<u64> = vec![0, 1, 2, 3, 5];
+        let n = b.legals().count() as u64;
+        kvals.push(n + 1 + rng.below(4));
+        kvals.push(40 + rng.below(60));
+        if thorough || i % 3 == 0 {
+            kvals.push(300 + rng.below(900));
+        }
+        search_cases_cfg(out, &tagged, &[], &kvals, true);
     }
 }
 
